@@ -307,6 +307,56 @@ func c18CLI(c *eng.Ctx) {
 		leaves = []eng.PhiLeaf{{Val: sent, From: put.Block()}}
 	}
 	nChecked := 0
+	// emptyReach: assuming len(val) == 0 and !EmptyOK, is a target reachable from start in fn?
+	emptyReach := func(fn *ssa.Function, start ssa.Instruction, val ssa.Value, target func(ssa.Instruction) bool) (ssa.Instruction, []*ssa.BasicBlock) {
+		assume := func(b *ssa.BasicBlock, i int) bool {
+			ifi, ok := b.Instrs[len(b.Instrs)-1].(*ssa.If)
+			if !ok {
+				return true
+			}
+			cond := eng.CondOf(ifi.Cond, i == 0)
+			if op, x, y, isCmp := cond.Cmp(); isCmp {
+				if k, isK := eng.ConstInt(y); isK && k == 0 {
+					if args, isLen := eng.BuiltinCall(instrOf(eng.Origin(x)), "len"); isLen && eng.Origin(args[0]) == eng.Origin(val) {
+						return op == token.EQL || op == token.LEQ
+					}
+				}
+			}
+			if v, truth, isB := cond.Bool(); isB && argField(v, "EmptyOK") {
+				return !truth
+			}
+			return true
+		}
+		return eng.Search(fn, start, assume, nil, target)
+	}
+	nilErrReturn := func(x ssa.Instruction) bool {
+		r, isR := x.(*ssa.Return)
+		if !isR {
+			return false
+		}
+		rv := eng.RetVals(r)
+		return len(rv) == 0 || nonNilAt(rv[len(rv)-1], eng.FactsAt(r)) != eng.Yes
+	}
+	okReadOf := func(arg ssa.Value) bool {
+		rd, ridx := eng.TupleCall(arg)
+		if rd == nil || ridx != 0 {
+			return false
+		}
+		switch {
+		case eng.CalleeIs(&rd.Call, "os", "ReadFile"):
+			return argField(rd.Call.Args[0], "File")
+		case eng.CalleeIs(&rd.Call, "io", "ReadAll"):
+			// the whole of standard input, not a wrapped/limited reader
+			if ci, isCI := rd.Call.Args[0].(*ssa.ChangeInterface); isCI {
+				return eng.IsGlobalLoad(ci.X, "os", "Stdin")
+			}
+			if mi, isMI := rd.Call.Args[0].(*ssa.MakeInterface); isMI {
+				return eng.IsGlobalLoad(mi.X, "os", "Stdin")
+			}
+			return eng.IsGlobalLoad(eng.OriginConv(rd.Call.Args[0]), "os", "Stdin")
+		}
+		return false
+	}
 	for _, lf := range leaves {
 		site := "value sent by `setec put`: " + eng.ValStr(lf.Val)
 		call, idx := eng.TupleCall(lf.Val)
@@ -314,28 +364,52 @@ func c18CLI(c *eng.Ctx) {
 			c.Bad("R-C18-3", runPut, put.Pos(), site, "the result of checkPutText on the bytes read, or the confirmed terminal input", "unexpected source")
 			continue
 		}
+		emptyInHelper := false
+		cal := eng.Callee(&call.Call)
+		// a helper of the command that wraps checkPutText (and possibly the empty test)
+		var inner *ssa.Call
+		if cal != nil && cal != check && cal.Blocks != nil && eng.FuncPkg(cal) == eng.FuncPkg(runPut) && idx == 0 && len(call.Call.Args) == 1 && len(cal.Params) == 1 {
+			eng.Instrs(cal, func(in ssa.Instruction) {
+				if ic, ok := in.(*ssa.Call); ok && eng.Callee(&ic.Call) == check && eng.Origin(ic.Call.Args[0]) == ssa.Value(cal.Params[0]) {
+					inner = ic
+				}
+			})
+		}
 		switch {
-		case eng.Callee(&call.Call) == check && idx == 0:
+		case inner != nil:
 			nChecked++
-			// applied to exactly the bytes read
-			rd, ridx := eng.TupleCall(call.Call.Args[0])
-			okRead := false
-			if rd != nil && ridx == 0 {
-				switch {
-				case eng.CalleeIs(&rd.Call, "os", "ReadFile"):
-					okRead = argField(rd.Call.Args[0], "File")
-				case eng.CalleeIs(&rd.Call, "io", "ReadAll"):
-					// the whole of standard input, not a wrapped/limited reader
-					okRead = eng.IsGlobalLoad(eng.OriginConv(rd.Call.Args[0]), "os", "Stdin")
-					if ci, isCI := rd.Call.Args[0].(*ssa.ChangeInterface); isCI {
-						okRead = eng.IsGlobalLoad(ci.X, "os", "Stdin")
+			okRet := true
+			for _, r := range eng.Returns(cal) {
+				if !nilErrReturn(r) {
+					continue
+				}
+				rc, ri := eng.TupleCall(eng.RetVals(r)[0])
+				if rc != inner || ri != 0 {
+					okRet = false
+				}
+			}
+			c.Check(okRet, "R-C18-3", cal, inner.Pos(), site+" [helper]", "the helper's successful result is exactly checkPutText(its argument)", "another value is returned with a nil error")
+			c.Check(okReadOf(call.Call.Args[0]), "R-C18-3", runPut, call.Pos(), site+" [input]", "checkPutText is applied to exactly the bytes read: os.ReadFile(--from-file) or io.ReadAll(os.Stdin) of the whole input", "applied to "+eng.ValStr(call.Call.Args[0]))
+			hitH, _ := eng.Search(cal, inner, eng.AssumeErr(saveErr(inner), false), nil, nilErrReturn)
+			hit, _ := eng.Search(runPut, call, eng.AssumeErr(saveErr(call), false), nil, func(x ssa.Instruction) bool { return x == ssa.Instruction(put) })
+			c.Check(hit == nil && hitH == nil, "R-C18-3", runPut, call.Pos(), site+" [refusal]", "when checkPutText refuses, put returns without contacting the server", "the Put request is reachable after the refusal")
+			if inv, _ := eng.TupleCall(eng.Origin(lf.Val)); inv != nil {
+				var innerVal ssa.Value
+				for _, rf := range *inner.Referrers() {
+					if ex, isEx := rf.(*ssa.Extract); isEx && ex.Index == 0 {
+						innerVal = ex
 					}
-					if mi, isMI := rd.Call.Args[0].(*ssa.MakeInterface); isMI {
-						okRead = eng.IsGlobalLoad(mi.X, "os", "Stdin")
+				}
+				if innerVal != nil {
+					if h, _ := emptyReach(cal, inner, innerVal, nilErrReturn); h == nil {
+						emptyInHelper = true
 					}
 				}
 			}
-			c.Check(okRead, "R-C18-3", runPut, call.Pos(), site+" [input]", "checkPutText is applied to exactly the bytes read: os.ReadFile(--from-file) or io.ReadAll(os.Stdin) of the whole input", "applied to "+eng.ValStr(call.Call.Args[0]))
+		case cal == check && idx == 0:
+			nChecked++
+			// applied to exactly the bytes read
+			c.Check(okReadOf(call.Call.Args[0]), "R-C18-3", runPut, call.Pos(), site+" [input]", "checkPutText is applied to exactly the bytes read: os.ReadFile(--from-file) or io.ReadAll(os.Stdin) of the whole input", "applied to "+eng.ValStr(call.Call.Args[0]))
 			// its error returns before the request: from the err != nil edge Put is unreachable
 			ev := saveErr(call)
 			hit, _ := eng.Search(runPut, call, eng.AssumeErr(ev, false), nil, func(x ssa.Instruction) bool { return x == ssa.Instruction(put) })
@@ -346,26 +420,11 @@ func c18CLI(c *eng.Ctx) {
 			c.Bad("R-C18-3", runPut, put.Pos(), site, "the result of checkPutText on the bytes read, or the confirmed terminal input", "other source "+eng.CallStr(&call.Call))
 		}
 		// empty refused unless --empty-ok: assuming len(this value)==0 and !EmptyOK, Put unreachable from where the value is produced
-		assume := func(b *ssa.BasicBlock, i int) bool {
-			ifi, ok := b.Instrs[len(b.Instrs)-1].(*ssa.If)
-			if !ok {
-				return true
-			}
-			cond := eng.CondOf(ifi.Cond, i == 0)
-			if op, x, y, isCmp := cond.Cmp(); isCmp {
-				if k, isK := eng.ConstInt(y); isK && k == 0 {
-					if args, isLen := eng.BuiltinCall(instrOf(eng.Origin(x)), "len"); isLen && eng.Origin(args[0]) == eng.Origin(lf.Val) {
-						return op == token.EQL || op == token.LEQ
-					}
-				}
-			}
-			if v, truth, isB := cond.Bool(); isB && argField(v, "EmptyOK") {
-				return !truth
-			}
-			return true
+		if emptyInHelper {
+			c.Ok("R-C18-3", cal, inner.Pos(), site+" [empty]", "refused inside "+eng.FName(cal)+": with len(value) == 0 and !EmptyOK it has no successful return")
+			continue
 		}
-		start := call
-		hit, path := eng.Search(runPut, start, assume, nil, func(x ssa.Instruction) bool { return x == ssa.Instruction(put) })
+		hit, path := emptyReach(runPut, call, lf.Val, func(x ssa.Instruction) bool { return x == ssa.Instruction(put) })
 		c.Check(hit == nil, "R-C18-3", runPut, call.Pos(), site+" [empty]", "an empty value is refused unless --empty-ok: with len(value) == 0 and !EmptyOK the request is unreachable", func() string {
 			if hit == nil {
 				return ""
